@@ -191,6 +191,11 @@ def gen_random_case(rng, i, allow_stop):
             "cmds": cmds, "src": "random"}
     if rng.random() < 0.25:
         case["lcmds"] = listener_cmds(rng, u)
+    if rng.random() < 0.12:
+        # construct_model raises on the k-th initialize that gets that far; make sure more initializes follow
+        case["construct_fails"] = [rng.choice([1, 1, 2])]
+        for _ in range(rng.randint(1, 2)):
+            case["cmds"].insert(rng.randint(1, len(case["cmds"])), gen_repl(rng, clock))
     return case
 
 
@@ -361,7 +366,8 @@ def check_quiescent(sn, mon, tag=""):
 
 def oracle(case, obs):
     """first violated clause as (signature, description) or None; plus facts about the case"""
-    facts = {"refusal": False, "reinit": False, "ended": False, "inner_cmd": False, "listener_cmd": False, "cleanup": False,
+    facts = {"refusal": False, "reinit": False, "ended": False, "inner_cmd": False, "listener_cmd": False, "aborted_init": False,
+             "cleanup": False,
              "resumed": False, "executed": 0, "accepted": 0}
     if "error" in obs:
         return ("driver-error", obs["error"]), facts
@@ -379,6 +385,9 @@ def oracle(case, obs):
     starts = 0
     prev_quiet = True
     ended_incl = None
+    fails = set(case.get("construct_fails", []))
+    n_init_try = 0              # initialize calls that got as far as construct_model
+    aborted_worker = False
     for ent in obs["log"]:
         kind = ent[0]
         if kind == "ntf":
@@ -437,6 +446,25 @@ def oracle(case, obs):
         elif kind == "cmd":
             c, sn = ent[1], ent[2:]
             r, rs2, ps2, clk2, np2, live2, quiet = sn
+            if c[0] == "init":
+                n_init_try += 1 if expected_outcome(c, rs, ps, clk, end) == "ok" else 0
+            if (c[0] == "init" and r == "exc:RuntimeError" and n_init_try in fails
+                    and expected_outcome(c, rs, ps, clk, end) == "ok"):
+                # initialize aborted by the model: construct_model raised after the simulator had terminated the
+                # previous run thread and created the new one.  The simulator stays NOT_INITIALIZED and holds the new
+                # (waiting) run thread until the next initialize / cleanup; nothing has been notified.
+                facts["aborted_init"] = True
+                if seg:
+                    return ("initialize-notified", f"aborted initialize notified {seg[:3]}"), facts
+                if (rs2, ps2, live2) != ("NOT_INITIALIZED", "NOT_INITIALIZED", 1) or not quiet:
+                    return ("aborted-initialize-wrong-state", f"{c} aborted by construct_model: state {rs2}/{ps2}, "
+                                                              f"{live2} live run thread(s), quiescent {quiet} (previous state {rs}/{ps})"), facts
+                mon = None
+                aborted_worker = True
+                end = c[3]
+                rs, ps, clk, npend, live = rs2, ps2, clk2, np2, live2
+                prev_quiet, seg = True, []
+                continue
             if r not in ("ok", "refused"):
                 return ("command-raises-unrelated-error", f"{c} in state {rs}/{ps} -> {r}"), facts
             exp = expected_outcome(c, rs, ps, clk, end)
@@ -476,7 +504,12 @@ def oracle(case, obs):
                     return ("accepted-start-not-announced", f"{c} accepted without a STARTING notification"), facts
             if clk2 < clk and c[0] != "init":
                 return ("clock-went-backwards", f"{c}: clock {clk} -> {clk2}"), facts
-            bad = check_quiescent(sn, mon) if quiet is not None else None
+            if r == "ok" and c[0] in ("init", "cleanup"):
+                aborted_worker = False
+            sn_q = sn
+            if aborted_worker and (rs2, ps2, live2) == ("NOT_INITIALIZED", "NOT_INITIALIZED", 1):
+                sn_q = sn[:5] + [0] + sn[6:]        # the run thread of the aborted initialize is still held: expected
+            bad = check_quiescent(sn_q, mon) if quiet is not None else None
             if bad:
                 return (bad[0], f"after {c}: {bad[1]}"), facts
             if ps2 == "ENDED":
@@ -493,9 +526,11 @@ def oracle(case, obs):
             rs, ps, clk, npend, live = rs2, ps2, clk2, np2, live2
             prev_quiet = quiet is not None
             seg = []
-    if obs.get("alive", 0) != (1 if ps in ("INITIALIZED", "STARTED") else 0):
+    if obs.get("alive", 0) != (1 if (ps in ("INITIALIZED", "STARTED") or aborted_worker) else 0):
         return ("run-thread-still-alive" if obs.get("alive") else "run-thread-missing",
                 f"{obs.get('alive')} live run thread(s) at the end in state {rs}/{ps}"), facts
+    if obs.get("leaked"):
+        return ("run-thread-leaked", f"{obs['leaked']} run thread(s) created by this history are still alive after the final cleanup()"), facts
     if obs.get("notes"):
         return ("harness-note", "; ".join(obs["notes"])), facts
     return None, facts
@@ -594,8 +629,9 @@ def coq_compare(scratch, cases, obs, shard=400):
     codes = [0] * len(cases)
     idxs = []
     for i, o in enumerate(obs):
-        if cases[i].get("rapid"):
-            codes[i] = 5          # commands not issued at quiescence: outside M1, judged by the oracle only
+        if cases[i].get("rapid") or cases[i].get("construct_fails"):
+            codes[i] = 5          # commands not issued at quiescence / initialize aborted by a failing construct_model
+                                  # (Sim/Model.v flags it as not covered): outside M1, judged by the oracle only
         elif representable(o) is None:
             idxs.append(i)
         else:
@@ -977,8 +1013,8 @@ def main(tier: str) -> int:
             small = shrink_seq(cases[i], pred)
         o2 = run_impl([small], 1)[0]
         b, _ = oracle(small, o2)
-        run.violation(sig, (b or bad)[1], {"case": {k: small[k] for k in ("kind", "clock", "strategy", "prog", "cmds", "lcmds", "rapid", "slow_handler_ms") if k in small},
-                                           "impl_observation": {k: o2.get(k) for k in ("snaps", "ntfs", "log", "alive", "notes", "error")},
+        run.violation(sig, (b or bad)[1], {"case": {k: small[k] for k in ("kind", "clock", "strategy", "prog", "cmds", "lcmds", "construct_fails", "rapid", "slow_handler_ms") if k in small},
+                                           "impl_observation": {k: o2.get(k) for k in ("snaps", "ntfs", "log", "alive", "leaked", "notes", "error")},
                                            "how": "feed [case] as a JSON list to harness/c04_impl.py with PYTHONPATH=<repo>/src"})
 
     for sig, (i, bad) in sorted(bad_by_sig.items())[:4]:
@@ -1058,7 +1094,7 @@ def main(tier: str) -> int:
             report_seq(len(cases) - 1, found[1])
         else:
             run.violation(sig, what + "; no clause of the property was found violated by the oracle on the explored inputs",
-                          {"case": {k: cases[i][k] for k in ("kind", "clock", "strategy", "prog", "cmds", "lcmds", "rapid", "slow_handler_ms") if k in cases[i]},
+                          {"case": {k: cases[i][k] for k in ("kind", "clock", "strategy", "prog", "cmds", "lcmds", "construct_fails", "rapid", "slow_handler_ms") if k in cases[i]},
                            "impl_observation": {k: obs[i].get(k) for k in ("snaps", "ntfs", "alive", "notes", "error")},
                            "model_view": coq_view(cases[i], obs[i]) if want != 4 else representable(obs[i]),
                            "relation": "Sim.Lifecycle.lcase_code", "other_disagreeing_cases": len(idx) - 1},
